@@ -6,6 +6,7 @@ package main
 // C08 (recovery script from whatever state the history reached; no blocking).
 
 import (
+	"sync"
 	"errors"
 	"fmt"
 	"time"
@@ -201,6 +202,37 @@ func runCB(x *X) {
 		if !x.dead {
 			ok = x.RunTasks(onErr)
 		}
+	} else if ok && mr >= 2 && st < mr && c.Intn(2, "stale-trial-across-cycle") == 1 {
+		// Biased phase: a trial of one half-open episode that is still in flight after the
+		// breaker has closed, tripped again and entered its next episode. Its late success
+		// belongs to no trial of the current episode.
+		var stt circuitbreaker.State
+		x.Do("state", func() { stt = cb.State() }, onErr)
+		for k := 0; k < ft+1 && stt == circuitbreaker.StateClosed && !x.dead; k++ {
+			x.Do("trip", func() { doExec(cbOp{kind: "exec", outcome: "fail"}) }, onErr)
+			x.Do("state", func() { stt = cb.State() }, onErr)
+		}
+		x.Advance(timeout+time.Millisecond, onErr)
+		s.Spawn("slow-trial", func() { doExec(cbOp{kind: "exec", outcome: "ok", dur: 2*timeout + 500*time.Millisecond}) })
+		x.Advance(time.Millisecond, onErr)
+		for k := 0; k < st && !x.dead; k++ {
+			x.Do("trial", func() { doExec(cbOp{kind: "exec", outcome: "ok"}) }, onErr)
+		}
+		for k := 0; k < ft && !x.dead; k++ {
+			x.Do("trip-again", func() { doExec(cbOp{kind: "exec", outcome: "fail"}) }, onErr)
+		}
+		x.Advance(timeout+time.Millisecond, onErr)
+		if st >= 2 {
+			for k := 0; k < st-1 && !x.dead; k++ {
+				x.Do("trial-2", func() { doExec(cbOp{kind: "exec", outcome: "ok"}) }, onErr)
+			}
+		} else {
+			s.Spawn("slow-trial-2", func() { doExec(cbOp{kind: "exec", outcome: "ok", dur: 2 * timeout}) })
+		}
+		x.Probe("stale-trial-across-cycle")
+		if !x.dead {
+			ok = x.RunTasks(onErr)
+		}
 	}
 	if ok {
 		checkCBHistory(x, evs, ft, st, mr, interval, timeout)
@@ -220,7 +252,47 @@ func runCB(x *X) {
 			x.Probe("config-rejected-by-validation")
 		}
 	}
-	if ok && accepted && x.Want("C08") {
+	if ok && accepted && x.Want("C08") && c.Intn(3, "recovery-with-overlapping-traffic") == 0 {
+		// The same claim with traffic that overlaps: every `timeout` a group of 2-4 requests
+		// arrives together, every one that is admitted succeeds. Requests refused while trials
+		// are in flight are not failures of the backend: after a bounded number of successful
+		// requests the breaker must be closed.
+		bound := st + mr + 1
+		dur := []time.Duration{0, time.Millisecond, 20 * time.Millisecond, 300 * time.Millisecond}[c.Intn(4, "overlap-dur")]
+		group := 2 + c.Intn(3, "overlap-group")
+		succeeded, closedAfter := 0, -1
+		var rets []string
+		for round := 0; round < bound+2 && closedAfter < 0 && !x.dead; round++ {
+			x.Advance(timeout+time.Millisecond, onErr)
+			var rmu sync.Mutex
+			for k := 0; k < group; k++ {
+				s.Spawn("overlap", func() {
+					r := doExec(cbOp{kind: "exec", outcome: "ok", dur: dur})
+					rmu.Lock()
+					rets = append(rets, r)
+					if r == "nil" {
+						succeeded++
+					}
+					rmu.Unlock()
+				})
+			}
+			if !x.RunTasks(onErr) {
+				break
+			}
+			var stt circuitbreaker.State
+			x.Do("state", func() { stt = cb.State() }, onErr)
+			if stt == circuitbreaker.StateClosed {
+				closedAfter = succeeded
+			}
+		}
+		if !x.dead {
+			if closedAfter < 0 || closedAfter > bound+group {
+				x.Violate("C08", "C08/no-recovery{overlapping-traffic}", "breaker not CLOSED after %d rounds of %d overlapping requests one timeout apart, %d of which ran and succeeded (ft=%d st=%d mr=%d): returns=%v", bound+2, group, succeeded, ft, st, mr, rets)
+			} else {
+				x.Probe("recovered-under-overlapping-traffic")
+			}
+		}
+	} else if ok && accepted && x.Want("C08") {
 		// Whenever requests would succeed again: after at most `timeout` plus a
 		// bounded number of successful requests the breaker is closed and admits.
 		x.Advance(timeout+time.Millisecond, onErr)
